@@ -260,6 +260,12 @@ func TestVerifC01WireIsRaw(t *testing.T) {
 		cfg.InsecureSkipVerify = true // SetSNI changes the name; certificate checks are C14's business
 		cfg.OmitEmptyPsk = true
 		cfg.Rand = vfNewDetRand(rapid.Uint64().Draw(rt, "rand"), "c01")
+		withCache := rapid.IntRange(0, 2).Draw(rt, "cache") == 0
+		if withCache {
+			// a (cold) session cache switches on the session-loading path of BuildHandshakeState
+			cfg.ClientSessionCache = NewLRUClientSessionCache(4)
+			cfg.PreferSkipResumptionOnNilExtension = true // custom specs without session extensions: documented switch
+		}
 		cp, sp := vfPipe()
 		uc := UClient(cp, cfg, src.ID)
 		var err error
@@ -358,6 +364,9 @@ func TestVerifC01WireIsRaw(t *testing.T) {
 		st.Eval()
 		st.Class("source:" + src.Kind)
 		st.Class("server:" + srvKind)
+		if withCache {
+			st.Class("with-session-cache")
+		}
 		what := fmt.Sprintf("%s server=%s edits=%v", src, srvKind, m.kinds)
 		writes := cp.Writes()
 		hellos := vfClientHellosOnWire(cp.Written())
